@@ -21,9 +21,15 @@ import gevent.queue
 
 from qs import jobs, misc, qserve, rpcserver
 
+from . import vtimer
 from .kernel import Digest, HarnessError, Violation
 
 T0 = 1_700_000_000.0
+# Requests never execute at the very instant a timer loop ticks, and no deadline (request time +
+# a timeout that is a multiple of 0.5 s) falls exactly on a tick: whether a job whose deadline
+# equals "now" times out at this tick or the next is not fixed by any property, so the
+# simulation keeps request phases and tick phases apart instead of modelling the boundary.
+PHASE = 0.137
 
 
 class SimClock:
@@ -35,6 +41,14 @@ class SimClock:
 
     def time(self):
         return self.mono + self.skew
+
+    def monotonic(self):
+        # same time line as time(): an implementation that measures deadlines on the monotonic
+        # clock behaves exactly like one that uses the wall clock (jumps hit both)
+        return self.mono + self.skew - T0
+
+    def sleep(self, seconds):
+        raise HarnessError("blocking time.sleep() inside the queue server")
 
 
 class ScriptedRandom:
@@ -165,19 +179,27 @@ class QsSim:
         self.counters = {}
         self._install()
         self._start_server()
+        self.clock.mono += PHASE
 
     # ---- seams -----------------------------------------------------------------
     def _install(self):
-        self._saved = (jobs.time, jobs.random, misc.gevent)
+        # `random` is an optional seam: an implementation that picks the blocked worker
+        # deterministically does not import it
+        self._saved = (jobs.time, getattr(jobs, "random", None), misc.gevent)
         jobs.time = self.clock
-        jobs.random = self.random
+        if self._saved[1] is not None:
+            jobs.random = self.random
         misc.gevent = _GeventProxy(self)
         hub = gevent.get_hub()
         self._saved_handle_error = hub.__dict__.get("handle_error")
         hub.handle_error = self._hub_error
+        self._real_loop = vtimer.install(self)  # gevent's own timers become virtual, too
 
     def _uninstall(self):
-        jobs.time, jobs.random, misc.gevent = self._saved
+        jobs.time, misc.gevent = self._saved[0], self._saved[2]
+        if self._saved[1] is not None:
+            jobs.random = self._saved[1]
+        vtimer.uninstall(self._real_loop)
         rpcserver.Server = _REAL_SERVER[0]
         hub = gevent.get_hub()
         if self._saved_handle_error is None:
@@ -314,9 +336,16 @@ class QsSim:
     # ---- virtual time ----------------------------------------------------------
     def _virtual_sleep(self, seconds):
         ev = gevent.event.Event()
-        self.seq += 1
-        heapq.heappush(self.sleepers, (self.clock.mono + seconds, self.seq, ev))
+        self.schedule_timer(seconds, ev.set)
         ev.wait()
+
+    def schedule_timer(self, after, fire):
+        """Entry point for CallInLoop's sleeps and for every gevent timer the SUT creates."""
+        self.seq += 1
+        heapq.heappush(self.sleepers, (self.clock.mono + after, self.seq, fire))
+
+    def count_timer_fired(self):
+        self.count("gevent-timer-fired")
 
     def advance(self, delta):
         """Let `delta` virtual seconds pass; every due sleeper fires at its own time and
@@ -324,10 +353,10 @@ class QsSim:
         target = self.clock.mono + delta
         fired = 0
         while self.sleepers and self.sleepers[0][0] <= target:
-            due, _, ev = heapq.heappop(self.sleepers)
+            due, _, fire = heapq.heappop(self.sleepers)
             if due > self.clock.mono:
                 self.clock.mono = due
-            ev.set()
+            fire()
             gevent.idle()
             fired += 1
             if fired > 100000:
@@ -344,8 +373,8 @@ class QsSim:
         due_now = []
         while self.sleepers and self.sleepers[0][0] <= self.clock.mono:
             due_now.append(heapq.heappop(self.sleepers))
-        for _, _, ev in due_now:
-            ev.set()
+        for _, _, fire in due_now:
+            fire()
             fired += 1
         return fired
 
@@ -428,7 +457,9 @@ class QsSim:
         self.epoch += 1
         self._stamp("restart", self.epoch)
         self._notify(self.observer.on_restart, self.clock.time())
+        self.clock.mono += PHASE  # the new server's timer phase differs from every earlier request phase
         self._start_server()
+        self.clock.mono += PHASE
         gevent.idle()
         return live
 
